@@ -2,7 +2,7 @@
 import numpy as np
 
 
-def header(nchan, count, nbytes=2, byte_format="01", coding="pcm", hsize=1024, rate=8000, extra=(), omit=(), lead=()):
+def header(nchan, count, nbytes=2, byte_format="01", coding="pcm", hsize=1024, rate=8000, extra=(), omit=(), lead=(), trail=""):
     fields = [
         ("channel_count", "-i %d" % nchan),
         ("sample_count", "-i %d" % count),
@@ -16,7 +16,7 @@ def header(nchan, count, nbytes=2, byte_format="01", coding="pcm", hsize=1024, r
         h += line + "\n"
     for k, v in fields:
         if k not in omit:
-            h += "%s %s\n" % (k, v)
+            h += "%s %s%s\n" % (k, v, trail)  # (trail: blanks after the value, which the header grammar allows)
     for line in extra:
         h += line + "\n"
     h += "end_head\n"
